@@ -23,7 +23,7 @@ package c06
 //
 // documentation silent (the model is NOT consulted; only agreement of the two backends and the frame conditions):
 //   * every call with an empty-string argument;
-//   * WriteFile with zero bytes; Touch of a missing path ending with a separator;
+//   * WriteFile with zero bytes; ReadFile of an empty file; Touch of a missing path ending with a separator;
 //   * IsDir / IsEmpty / FindAll of a missing path (the doc comments say neither "false" nor "error");
 //   * FindAll when a directory carries the extension; whether a recursive listing contains the listed directory itself
 //     (it is dropped from both sides before comparing); the ORDER of every listing (compared as sorted sets);
@@ -405,6 +405,11 @@ func model(c call, t tree) outcome {
 		}
 		switch c.Op {
 		case "ReadFile":
+			if t[a.P].Content == "" {
+				// reading zero bytes: like writing zero bytes, the repository answers ErrEmpty on purpose; the doc
+				// comment ("reads a file and returns its content") does not say: silent
+				return silent()
+			}
 			return okVal(t, fmt.Sprintf("%q", t[a.P].Content))
 		case "GetFileSize":
 			return okVal(t, fmt.Sprint(len(t[a.P].Content)))
@@ -527,8 +532,13 @@ func modelCopy(c call, t tree, s, d arg) outcome {
 	if ks == 'f' && s.Sep {
 		return conflict(d.P)
 	}
+	// the source rule. What lies inside the destination is the destination, also when the destination lies inside
+	// the source: those entries are excepted (except == noExcept: derive it from the arguments).
 	withSrc := func(o outcome, except string) outcome {
 		if ks != 'm' {
+			if except == noExcept && under(d.P, s.P) {
+				except = d.P
+			}
 			o.HasSrc, o.Src, o.SrcExcept = true, s.P, except
 		}
 		return o
@@ -701,7 +711,10 @@ func modelMove(t tree, s, d arg, sameSpelling bool) outcome {
 
 // ---- shapes and signatures --------------------------------------------------------------------
 
-func shapeOf(t tree, a arg) string {
+// shapeOf is the shape of one argument relative to the tree. Features that cannot matter for the documented
+// semantics are not part of it: a trailing separator on an existing DIRECTORY ("a/" is "a"), and - unless fine is set
+// (IsEmpty, the entry a move would replace) - whether a directory / a file is empty.
+func shapeOf(t tree, a arg, fine bool) string {
 	if a.Empty {
 		return "empty"
 	}
@@ -715,79 +728,86 @@ func shapeOf(t tree, a arg) string {
 		case t.kind(parent(a.P)) == 'm':
 			s += "+pmissing"
 		}
+		if a.Sep {
+			s += "+sep"
+		}
 	case 'f':
-		if t[a.P].Content == "" {
+		s = "file"
+		if fine && t[a.P].Content == "" {
 			s = "efile"
-		} else {
-			s = "file"
+		}
+		if a.Sep {
+			s += "+sep"
 		}
 	default:
-		if len(t.children(a.P)) == 0 {
+		s = "dir"
+		if fine && len(t.children(a.P)) == 0 {
 			s = "edir"
-		} else {
-			s = "dir"
 		}
-	}
-	if a.Sep {
-		s += "+sep"
 	}
 	return s
 }
 
-func relationOf(t tree, c call, s, d arg) string {
-	if s.Empty || d.Empty {
-		return ""
-	}
-	var r string
-	switch {
-	case c.A == c.B:
-		r = "equal"
-	case s.P == d.P:
-		r = "same"
-	case under(d.P, s.P):
-		r = "d-in-s"
-	case parent(s.P) == d.P:
-		r = "s-child-of-d"
-	case under(s.P, d.P):
-		r = "s-in-d"
-	default:
-		r = "disjoint"
-	}
-	if t.kind(d.P) == 'd' && t.kind(s.P) != 'm' && c.Op != "CopyToFile" {
-		q := join(d.P, base(s.P))
-		into := shapeOf(t, arg{P: q})
-		if q == s.P {
-			into = "self"
-		}
-		r += ";into=" + into
-	}
-	return r
-}
-
 // callShape is the class of a call relative to a tree: the first half of every signature.
+//
+//	one argument:  Op(shape)
+//	two arguments: Op(shape(src),shape(dst);relation[;into=shape of dst/base(src) when dst is an existing directory])
+//	relation: equal (same spelling) | same (same path) | d-in-s (destination inside the source: then the destination's
+//	own shape is immaterial and written "in-src") | s-child-of-d | s-in-d | disjoint.
+//	Collapsed classes (one root cause whatever the rest is): an empty-string argument -> the other argument is "any";
+//	a destination below a FILE (missing+pfile) -> the source is "any" and the relation is dropped.
 func callShape(c call, t tree) string {
 	if c.Op == "Glob" {
 		return "Glob(" + c.A + ")"
 	}
 	a := parseArg(c.A)
-	s := c.Op + "(" + shapeOf(t, a)
+	fine := c.Op == "IsEmpty"
+	s := c.Op + "(" + shapeOf(t, a, fine)
 	if c.isTwoArg() {
 		b := parseArg(c.B)
+		sb := shapeOf(t, b, false)
 		switch {
-		// one root cause whatever the other argument is: the other argument's shape is not part of the class
 		case a.Empty && !b.Empty:
 			s = c.Op + "(empty,any"
 		case b.Empty && !a.Empty:
 			s = c.Op + "(any,empty"
+		case a.Empty && b.Empty:
+			s = c.Op + "(empty,empty"
+		case strings.HasPrefix(sb, "missing+pfile"):
+			s = c.Op + "(any," + sb
 		default:
-			s += "," + shapeOf(t, b)
-			if r := relationOf(t, c, a, b); r != "" {
-				s += ";" + r
+			rel := ""
+			switch {
+			case c.A == c.B:
+				rel = "equal"
+			case a.P == b.P:
+				rel = "same"
+			case under(b.P, a.P):
+				rel = "d-in-s"
+				sb = "in-src"
+			case parent(a.P) == b.P:
+				rel = "s-child-of-d"
+			case under(a.P, b.P):
+				rel = "s-in-d"
+			default:
+				rel = "disjoint"
+			}
+			s += "," + sb + ";" + rel
+			if rel != "d-in-s" && t.kind(b.P) == 'd' && t.kind(a.P) != 'm' && c.Op != "CopyToFile" {
+				q := join(b.P, base(a.P))
+				into := shapeOf(t, arg{P: q}, true)
+				if into == "efile" {
+					into = "file"
+				}
+				if q == a.P {
+					into = "self"
+				}
+				s += ";into=" + into
 			}
 		}
 	}
 	switch c.Op {
-	case "WriteFile", "Create":
+	case "WriteFile":
 		if c.C == "" {
 			s += ";c=empty"
 		} else {
